@@ -169,5 +169,5 @@ pub fn run(ctx: &Ctx) {
     ctx.assume("A's own connection may end; it is reconnected so the search continues");
     let k = ctx.tier.pick(1, 10);
     let _ = gens::pick(0, 1);
-    ctx.explore("attack", ExploreOpts::new(1_500 * k).shrink(300), strategy, run_case);
+    ctx.explore("attack", ExploreOpts::new(5_000 * k).shrink(300), strategy, run_case);
 }
